@@ -138,6 +138,32 @@ def handleLine (line : String) : String :=
             | _ => none
           m ++ "\t" ++ specVerdict acc impl
       | _ => "bad-op"
+    | "c01" :: "bool" :: cp :: n :: ctoks =>
+      -- Bool()/BoolPtr(): `Prim.parse` itself; refinements of the fixed family (0: v, 1: ¬v, 2: true)
+      let ks := (ctoks.filter (· ≠ "ref")).filterMap String.toNat?
+      if n.toNat? != some ks.length then "bad-op" else
+      let env : Env Nat Unit Unit Bool := ⟨fun k v => match k % 3 with | 0 => v | 1 => !v | _ => true, fun _ v => v, fun _ v => v⟩
+      let cs : List (Check Nat Unit) := ks.map fun k => .pred k false none
+      let i : Internals Nat Unit Bool := { checks := cs, ptrSchema := cp == "1", ctorPtr := cp == "1", isRefine := fun _ => true }
+      let inp : Option (Input Bool × Bool) := match inToks with
+        | ["foreign"] => some (.foreign, false)
+        | [t] =>
+          let core := ((t.replace "*" ""))
+          let v := core == "bool:true"
+          if !(core == "bool:true" || core == "bool:false") then none
+          else if t.endsWith "**" then some (.foreign, v)
+          else if t.endsWith "*" then some (.ptr v, v)
+          else some (.val v, v)
+        | _ => none
+      match inp with
+      | none => "bad-op"
+      | some (x, _) =>
+        let rv := fun (b : Bool) => if b then "bool:true" else "bool:false"
+        let m := renderOut rv (parse env i x)
+        let acc := match x with
+          | .val v | .ptr v => if specAll env cs v then some (rv v) else none
+          | _ => none
+        m ++ "\t" ++ specVerdict acc impl
     | "c01" :: "enum" :: _cp :: _n :: vals =>
       match inToks with
       | [x] =>
